@@ -1021,7 +1021,9 @@ class HealSparseMap(object):
                 sp_map_t = self._sparse_map.reshape(shape_new)
             counts = np.sum((sp_map_t != self._sentinel), axis=1).astype(np.float64)
 
-        cov_map[cov_mask] = counts[1:]/self._cov_map.nfine_per_cov
+        # The counts are in block (storage) order, which is not necessarily
+        # the order of increasing coverage pixel.
+        cov_map[self._cov_map._block_to_cov_index] = counts[1:]/self._cov_map.nfine_per_cov
         return cov_map
 
     @property
@@ -1093,9 +1095,11 @@ class HealSparseMap(object):
 
         fracdet /= nfine_per_frac
 
+        # The fracdet values are in block (storage) order, so the new coverage
+        # index must keep the same order of the coverage pixels.
         fracdet_cov_map = HealSparseCoverage.make_from_pixels(self.nside_coverage,
                                                               nside,
-                                                              np.where(cov_mask)[0])
+                                                              self._cov_map._block_to_cov_index)
 
         # The sentinel for a fracdet_map is 0.0, no coverage.
         return HealSparseMap(cov_map=fracdet_cov_map, sparse_map=fracdet,
